@@ -576,3 +576,28 @@ func vTemplateC01(t int, h *vHoles) *vRef {
 }
 
 func vNumTemplatesC01D2() int { return vNumAtomsC01 + 2 + 2*len(vCoreAtoms)*len(vCoreAtoms) }
+
+// Boolean constants mixed into a predicate: neutral and absorbing operands at both nesting
+// levels, which the expression optimizer removes before the access path is planned.
+const vNumConstMix = 8
+
+func vConstMix(shape int, a, a2 *vRef) *vRef {
+	t, f := &vRef{node: rTrue}, &vRef{node: rFalse}
+	switch shape {
+	case 0:
+		return vBin(true, "&", vBin(false, "|", a, f), t)
+	case 1:
+		return vBin(false, "|", vBin(true, "&", a, t), f)
+	case 2:
+		return vBin(true, "&", t, vBin(false, "|", f, a))
+	case 3:
+		return vBin(false, "|", f, vBin(true, "&", t, a))
+	case 4:
+		return vBin(false, "|", vBin(true, "&", a, t), vBin(true, "&", a2, t))
+	case 5:
+		return vBin(true, "&", vBin(false, "|", a, f), vBin(false, "|", a2, f))
+	case 6:
+		return vBin(true, "and", vBin(false, "or", a, f), t)
+	}
+	return vBin(false, "|", vBin(true, "&", f, a), vBin(true, "&", a2, t))
+}
